@@ -11,7 +11,7 @@ import twin
 ID = "C01"
 MODULE = "HttpcoreModel.Props.C01"
 THEOREMS = [f"Httpcore.C01.{n}" for n in ("h1_exchange_open", "h1_no_desync", "delivers_content_length", "delivers_chunked", "no_desync", "h1_reuse_rule", "exclusive_use", "in_use_not_idle",
-                                           "unfinished_exchange_closes", "h2_own_stream_only", "h1_gate_atomic", "h2_broken_connection_not_offered")] + ["Httpcore.LifeProps.h1_available_means_complete", "Httpcore.LifeProps.h1_reuse_only_after_both_done", "Httpcore.LifeProps.h1_idle_only_via_response_closed", "Httpcore.LifeProps.h1_gate_exclusive", "Httpcore.LifeProps.h1_closed_is_final_partial", "Httpcore.LifeProps.h1_closed_revives", "Httpcore.LifeProps.h2_closed_is_final", "Httpcore.LifeProps.h2_unusable_not_available"]
+                                           "unfinished_exchange_closes", "h2_own_stream_only", "h1_gate_atomic", "h2_broken_connection_not_offered")] + ["Httpcore.LifeProps.h1_available_means_complete", "Httpcore.LifeProps.h1_reuse_only_after_both_done", "Httpcore.LifeProps.h1_idle_only_via_response_closed", "Httpcore.LifeProps.h1_gate_exclusive", "Httpcore.LifeProps.h1_closed_is_final_partial", "Httpcore.LifeProps.h1_closed_revives", "Httpcore.LifeProps.h2_closed_is_final", "Httpcore.LifeProps.h2_unusable_not_available", "Httpcore.LifeProps.failed_io_takes_connection_out_of_service"]
 TRUSTED = [
     'life-cycle of the connection objects (ConnLife.lean): gate, _response_closed, aclose and the status predicates are *translated* from http11.py / http2.py on every run (harness/lifetrans.py -> Gen.h1*/Gen.h2*); the remaining steps (stream opened / request backed out / GOAWAY / I/O failure recorded) are hand-written and tied by lock-step: instrumented sub-classes log every life-cycle event of the real objects and the Lean driver replays the log (harness/connlife.py, this run)',
     "Lean 4.33 kernel; axioms per theorem under coverage.theorems",
